@@ -25,6 +25,8 @@ type SeqRun struct {
 	lastLen map[string]int // ds|id -> serialised length of the current version
 	lastStr map[string]string
 	Step    int
+	Marks   []*Mark
+	Paged   []*pagedQuery
 }
 
 // knownReporter returns a reporter that lets the run continue past violations matching an
@@ -248,6 +250,10 @@ func (r *SeqRun) oracle(touched []string, final bool) *Violation {
 				return v
 			}
 		}
+	case "C06":
+		if v := r.recheckMarks(); v != nil {
+			return v
+		}
 	case "C03":
 		lim := []int{1, 2}
 		v, q := CheckRelations(r.H, r.M, r.Pool, r.Preds, allScopes(r.M.Names()), lim, r.knownReporter())
@@ -293,10 +299,32 @@ func RunStoreScenario(sc *Scenario) (vd *Verdict) {
 		time.Sleep(d)
 		switch op.K {
 		case "batch", "txn":
+			var preL, preR map[string]string
+			markBefore := op.M != nil && op.M["markBefore"] == true
+			if markBefore {
+				var v *Violation
+				if preL, preR, v = r.currentAnswers(); v != nil {
+					fail(v, i)
+					return
+				}
+			}
+			tBefore := time.Now().UnixNano()
 			touched, v := r.applyWrite(op)
 			if v != nil {
 				fail(v, i)
 				return
+			}
+			if markBefore {
+				// only a write that really stored a version defines a commit instant
+				if tk := r.lastCommitTime(op); tk > tBefore {
+					r.takeMark("before-commit", tk-1, preL, preR)
+					postL, postR, v := r.currentAnswers()
+					if v != nil {
+						fail(v, i)
+						return
+					}
+					r.takeMark("commit", tk, postL, postR)
+				}
 			}
 			if checkEvery > 0 && i%checkEvery == 0 {
 				if v := r.oracle(touched, false); v != nil {
@@ -330,6 +358,23 @@ func RunStoreScenario(sc *Scenario) (vd *Verdict) {
 				return
 			}
 			r.ev("read r=%d lim=%d idx=%d", op.Reader, op.Limit, rd.Idx)
+		case "mark":
+			l, q, v := r.currentAnswers()
+			if v != nil {
+				fail(v, i)
+				return
+			}
+			r.takeMark("now", time.Now().UnixNano(), l, q)
+		case "pageStart":
+			if v := r.startPaged(relQuery{Start: op.S, Pred: op.DS, Inverse: op.Latest, Scope: scopeOf(op)}, op.Limit); v != nil {
+				fail(v, i)
+				return
+			}
+		case "pageContinue":
+			if v := r.continuePaged(); v != nil {
+				fail(v, i)
+				return
+			}
 		case "readBeyond":
 			ds := r.H.Dataset(op.DS)
 			if ds != nil {
@@ -345,8 +390,38 @@ func RunStoreScenario(sc *Scenario) (vd *Verdict) {
 			return
 		}
 	}
+	if v := r.continuePaged(); v != nil {
+		fail(v, len(sc.Ops))
+		return
+	}
 	if v := r.oracle(nil, true); v != nil {
 		fail(v, len(sc.Ops))
 	}
 	return
+}
+
+// lastCommitTime returns the recorded stamp of the versions a write op just stored (0 if none).
+func (r *SeqRun) lastCommitTime(op *Op) int64 {
+	var ds string
+	var ents []Ent
+	if op.K == "batch" {
+		ds, ents = op.DS, op.Ents
+	} else if len(op.Parts) > 0 {
+		ds, ents = op.Parts[0].DS, op.Parts[0].Ents
+	}
+	d := r.H.Dataset(ds)
+	if d == nil || len(ents) == 0 {
+		return 0
+	}
+	var best uint64
+	res, err := d.GetEntities("", 0)
+	if err != nil {
+		return 0
+	}
+	for _, e := range res.Entities {
+		if e.Recorded > best {
+			best = e.Recorded
+		}
+	}
+	return int64(best)
 }
